@@ -251,7 +251,7 @@ func main() {
 				files = []aspgen.File{{Name: "p", Src: it.raw}}
 				it.pysrc = it.raw
 			} else {
-				it.loose = hasBigInt(it.build) || hasBigInt(it.defs)
+				it.loose = hasBigInt(it.build) || hasBigInt(it.defs) || strings.Contains(aspgen.Source(it.build), "\" % ")
 				if it.defs != nil {
 					files = append(files, aspgen.NewFile("//defs:d", it.defs, true))
 				}
@@ -374,6 +374,12 @@ func main() {
 				c.Fail("unexplained-asp-python-difference", "raw program: asp and CPython differ", map[string]any{"src": it.src, "asp": it.asp.Final, "python": it.py})
 				continue
 			}
+			if strings.Contains(fmt.Sprint(it.asp.Final), "%!(") || strings.Contains(fmt.Sprint(it.asp.Final), "(MISSING)") {
+				// fmt.Sprintf reports a verb/argument mismatch INSIDE the result string ("%!(EXTRA ...)", "%!d(...)") instead of failing
+				c.Fail("percent-format-mismatch-no-error", "str % value with a verb/argument mismatch yields Go's %!(...) text where CPython raises TypeError or ignores the value ("+firstLine(lastLine(it.src))+")",
+					map[string]any{"src": it.src, "asp": it.asp.Final, "python": it.py})
+				continue
+			}
 			p := pending{it: it}
 			render := func(off string) int {
 				T := map[string]bool{}
@@ -481,6 +487,14 @@ func main() {
 }
 
 func hasOctal(p aspgen.Prog) bool { return strings.Contains(aspgen.Source(p), "0o") }
+
+func lastLine(s string) string {
+	s = strings.TrimRight(s, "\n")
+	if i := strings.LastIndexByte(s, '\n'); i >= 0 {
+		return s[i+1:]
+	}
+	return s
+}
 
 func firstLine(s string) string {
 	if i := strings.IndexByte(s, '\n'); i >= 0 && i < 120 {
